@@ -31,6 +31,8 @@ func isSinkName(n string) bool {
 func registerGhosts(v *Verifier) {
 	v.ghostFuns["coinsLen"] = ghostSig{[]string{"Slice_sdk_Coin"}, "Int"}
 	v.ghostFuns["decquo"] = ghostSig{[]string{"Int", "Int"}, "Int"}
+	v.ghostFuns["be64dec"] = ghostSig{[]string{"Slice_Int"}, "Int"}
+	v.ghostFuns["be64enc"] = ghostSig{[]string{"Int"}, "Slice_Int"}
 	v.ghostFuns["decmul"] = ghostSig{[]string{"Int", "Int"}, "Int"}
 	v.ghostFuns["pow2"] = ghostSig{[]string{"Int"}, "Int"}
 	v.ghostFuns["hasDelegation"] = ghostSig{[]string{sortAddr, sortAddr}, "Bool"}
